@@ -39,13 +39,14 @@ type InjectParams struct {
 	Pairs    int    `json:"pairs"`   // number of seeded double mutations
 	Alloc    bool   `json:"alloc"`   // UE IP allocation enabled in the agent
 	MaxCases int    `json:"maxCases"`
+	Datapath string `json:"datapath"` // bess (default) | up4: the mutated messages reach the UP4 plug-in's code
 }
 
 type injectSummary struct {
 	E2ESummary
-	Cases  int            `json:"cases"`
-	Deaths map[string]int `json:"deaths"` // crash site -> count
-	First  map[string]string `json:"first"` // crash site -> first case description
+	Cases  int               `json:"cases"`
+	Deaths map[string]int    `json:"deaths"` // crash site -> count
+	First  map[string]string `json:"first"`  // crash site -> first case description
 }
 
 // base messages of every type the agent dispatches; sess: UP SEID to address (0 = none), cp: CP SEID
@@ -128,6 +129,11 @@ func e2eInjectWorker(args []string) error {
 	cfg := agent.Cfg{N4Addr: p.N4Addr, Datapath: "bess", LogLevel: "warn", ReadTimeout: 120, RespTimeout: "2s", MaxReqRetries: 5, EndMarker: true}
 	if p.Alloc {
 		cfg.UEIPAlloc, cfg.UEPool = true, "10.250.0.0/24"
+	}
+
+	if p.Datapath == "up4" {
+		cfg = up4Cfg(rng, p.N4Addr)
+		cfg.EndMarker, cfg.UEIPAlloc, cfg.UEPool = true, p.Alloc, "10.250.0.0/24"
 	}
 
 	w, err := e2e.NewWorld(filepath.Join(p.Dir, "w"), p.AgentBin, p.Trace, cfg, int(p.Seed%1000)*1000+1)
@@ -443,8 +449,14 @@ func C01(c *core.Ctx) {
 		garbage, pairs = 1500, 400
 	}
 
-	res := runE2EMixed(c, nshards, "TraceE2E_C01.cfg", func(i int) (string, interface{}) {
+	nup4 := 2 // two more shards run half of the lattice each against the UP4 plug-in
+	res := runE2EMixed(c, nshards+nup4, "TraceE2E_C01.cfg", func(i int) (string, interface{}) {
 		dir, trace := shardDir(c, i)
+		if i >= nshards {
+			return "e2e-inject", InjectParams{Dir: dir, Trace: trace, AgentBin: filepath.Join(c.BinDir, "verif-agent"), N4Addr: n4For(i), Seed: c.Seed*1000 + 10 + int64(i),
+				Shard: i - nshards, NShards: nup4 * map[bool]int{true: 1, false: 4}[c.Thorough()], States: []int{2, 3}, Garbage: garbage / 4, Pairs: pairs / 2, Alloc: i%2 == 0, Datapath: "up4"}
+		}
+
 		return "e2e-inject", InjectParams{Dir: dir, Trace: trace, AgentBin: filepath.Join(c.BinDir, "verif-agent"), N4Addr: n4For(i), Seed: c.Seed*1000 + 10 + int64(i),
 			Shard: i, NShards: nshards, States: states, Garbage: garbage, Pairs: pairs, Alloc: i%2 == 0}
 	})
